@@ -105,7 +105,8 @@ def stringvalue(string):
     return string.replace('\\'+string[0], string[0])[1:-1]
 
 
-_match_forbidden_in_uri = re.compile(r'''.*?[\(\)\s\;,'"]''', re.U).match
+# (control characters are not allowed in an unquoted url() either)
+_match_forbidden_in_uri = re.compile(r'''.*?[\(\)\s\;,'"\x00-\x1f\x7f]''', re.U).match
 
 
 def uri(value):
